@@ -18,7 +18,7 @@ type Query { events(after: Stamp!, before: Stamp, third: Stamp): [Post] window(s
 type Mutation { rename(id: ID!, newName: String!): User stamp(at: Stamp!, until: Stamp!): Post }
 interface Node { id: ID! }
 type User implements Node { id: ID! userName: String friends(first: Int, kinds: [Kind!]): [User!] bestFriend(depth: Int): User posts(after: String, since: Stamp): [Post] }
-type Post implements Node { id: ID! title: String author: User comments(limit: Int!): [String] }
+type Post implements Node { id: ID! title: String author: User comments(limit: Int!): [String] posts(after: String!, since: Stamp!): [Post] }
 union Thing = User | Post
 enum Kind { A B }
 input Filter { a: Int, kind: Kind }
@@ -47,6 +47,9 @@ SHAPES = [
     ("iface_member_args", 'Query.node(id="7").fields(NodeInterface.id).on("User", UserFields.friends(first=2).fields(UserFields.id))', {"id": ("ID!", "7"), "first": ("Int", 2)}),
     ("union_member_args", 'Query.search(text="q").on("User", UserFields.friends(first=4).fields(UserFields.id)).on("Post", PostFields.comments(limit=1))',
      {"text": ("String!", "q"), "first": ("Int", 4), "limit": ("Int!", 1)}),
+    # the same field name, result type and argument NAMES on two types, with different argument types (User.posts / Post.posts)
+    ("user_posts", 'Query.me().fields(UserFields.posts(after="x", since="s").fields(PostFields.title))', {"after": ("String", "x"), "since": ("Stamp", '"s"')}),
+    ("post_posts", 'Query.node(id="7").on("Post", PostFields.posts(after="y", since="z").fields(PostFields.id))', {"id": ("ID!", "7"), "after": ("String!", "y"), "since": ("Stamp!", '"z"')}),
     ("scalar_falsy", 'Query.window(start="", end="").fields(PostFields.id)', {"start": ("Stamp!", '""'), "end": ("Stamp", '""')}),
     ("scalar_subfield", 'Query.me().fields(UserFields.posts(since="s").fields(PostFields.title))', {"since": ("Stamp", '"s"')}),
     # a scalar configured with serialize=json.dumps: every argument of it travels as dumps(value), the first one and the later ones
@@ -57,7 +60,7 @@ NSH = len(SHAPES)
 # second top-level field: every shape in the thorough tier, eight representative ones in the quick tier
 _QUICK_SECOND = ("user", "friends", "union", "alias", "input", "siblings_same_arg", "scalar_three", "iface")
 SECOND = [k for k, sh in enumerate(SHAPES) if os.environ.get("VERIF_C14_QUICK", "1") != "1" or sh[0] in _QUICK_SECOND]
-PREFIXES = [[], [8], [1], [8, 1], [5, 6]]
+PREFIXES = [[], [8], [1], [8, 1], [5, 6]] if os.environ.get("VERIF_C14_QUICK", "1") != "1" else [[], [8], [5, 6]]  # histories of previously built operations
 KNOWN_SHAPES = {"user_tags": "C14-list-type-dropped", "users_ids": "C14-list-type-dropped", "best_friend": "C14-snake-name-as-graphql-name",
                 "deep": "C14-deep-variables-undeclared", "same_arg_parent_child": "C14-deep-variables-undeclared",
                 "scalar_one": "C14-serialize-called-on-none"}
